@@ -636,7 +636,7 @@ func parseContractLines(pkg string, lines []string) (*PkgContracts, error) {
 				g.IsMap = true
 				g.Elem = strings.TrimPrefix(f[1], "map[int]")
 			}
-			if g.Elem != "int" && g.Elem != "bool" {
+			if g.Elem != "int" && g.Elem != "bool" && g.Elem != "string" {
 				return nil, fmt.Errorf("%s: ghost %s: unsupported type %s", pkg, f[0], f[1])
 			}
 			pc.Ghosts = append(pc.Ghosts, g)
